@@ -1,4 +1,5 @@
 mod core;
+mod drive;
 mod extract;
 mod replay;
 
@@ -27,6 +28,14 @@ fn main() {
             let fixfile = arg(&args, "--fix");
             let r = replay::replay(&input, fixfile.as_deref(), &outdir, nm, seed, sample, names, ser);
             println!("{r}");
+        }
+        Some("drive") => {
+            let out = arg(&args, "--out").expect("--out");
+            let seed: u64 = arg(&args, "--seed").and_then(|s| s.parse().ok()).unwrap_or(1);
+            let n: usize = arg(&args, "--n").and_then(|s| s.parse().ok()).unwrap_or(10);
+            let len: usize = arg(&args, "--len").and_then(|s| s.parse().ok()).unwrap_or(40);
+            let ser: usize = arg(&args, "--ser-every").and_then(|s| s.parse().ok()).unwrap_or(0);
+            println!("{}", drive::drive(&out, seed, n, len, ser));
         }
         Some("histories") => {
             let input = arg(&args, "--in").expect("--in");
